@@ -17,7 +17,8 @@ EXPLANATION = (
     "distance of the same two haplotype strings, and the branch taken when the direct distance is smaller marks agreement with ==, the other with !=; "
     "R3 run decomposition -- compute_switch_flips flushes a run of consecutive switch differences as run//2 flips and run%2 switches including the last index, and the "
     "diploid block comparison feeds both the switch count and the decomposition from the same operands (so switches = non-flip switches + 2 x flips by construction); "
-    "R4 -- only calls whose phase is present and complete enter a block (none-before-use filter)."
+    "R4 -- only calls whose phase is present and complete enter a block (none-before-use filter); "
+    "R5 -- the list of switch-error records printed to the BED file inside the chromosome loop is re-created in every iteration (no error position is reported twice)."
 )
 NOT_DECIDED = "Minimality over haplotype correspondences, label independence, the C++ permutation DP (value-level)."
 ASSUMPTIONS = ["a haplotype is represented as a str of allele characters, a phasing as a list of such strings (established by the kind inference on compare_pair)"]
@@ -104,6 +105,10 @@ def r2(ctx):
         # this `if` chooses the orientation of the agreement vector
         found += 1
         test = n.test
+        negated = False
+        while isinstance(test, ast.UnaryOp) and isinstance(test.op, ast.Not):
+            test = test.operand
+            negated = not negated
         direct_smaller_true = None
         d_args = None
         why = []
@@ -151,6 +156,8 @@ def r2(ctx):
                         why.append("the threshold %s is not the number of compared positions (the complemented distance is n - d, so d < n - d means 2 * d < n)" % u(bound))
         else:
             why.append("orientation is chosen by %s, not by an order comparison of distances" % u(test))
+        if negated and direct_smaller_true is not None:
+            direct_smaller_true = not direct_smaller_true
         ok = not why
         ctx.ob(fi.qual, "orientation-operands", ok, fi.loc(n), "orientation test %s compares the direct with the complemented per-position distance of the same two haplotype strings" % u(test) if ok else "orientation test %s: %s" % (u(test), "; ".join(why)))
         ok2 = direct_smaller_true is not None and d_args is not None
@@ -265,10 +272,43 @@ def r4(ctx):
             ctx.note("het filter %s at %s does not exclude the missing genotype; such calls have no complete phase and are removed by the phase-present filter above, only the informational heterozygous counts include them" % (u(site), f2.loc(site)))
 
 
+def r5(ctx):
+    """Per-chromosome report data written inside the chromosome loop is collected afresh for every chromosome."""
+    run = ctx.func(MOD + ".run_compare")
+    cfg = ctx.cfg(run)
+    loops = [n for n in walk_function(run.node) if isinstance(n, ast.For) and u(n.target) == "chromosome"]
+    ctx.require(len(loops) == 1, "chromosome loop of run_compare not found")
+    loop = loops[0]
+    n = 0
+    for inner in ast.walk(loop):
+        if not (isinstance(inner, ast.For) and inner is not loop and isinstance(inner.iter, ast.Name)):
+            continue
+        prints = [c for c in ast.walk(inner) if isinstance(c, ast.Call) and u(c.func) == "print" and any(k.arg == "file" for k in c.keywords)]
+        grows = [c for c in ast.walk(loop) if isinstance(c, ast.Call) and isinstance(c.func, ast.Attribute) and c.func.attr in ("append", "extend") and u(c.func.value) == inner.iter.id]
+        if not prints or not grows:
+            continue
+        n += 1
+        stale, ndefs = util.stale_path_into_use(cfg, loop, inner.iter.id, cfg.node_of(inner))
+        ok = stale is None and ndefs >= 1
+        ctx.ob(run.qual, "written-per-chromosome-collected-per-chromosome:%s" % inner.iter.id, ok, run.loc(inner), "`%s` is emptied at the start of every chromosome before it is filled and written to the report file" % inner.iter.id if ok else "`%s` is written out for every chromosome but not emptied in between: the records of earlier chromosomes are reported again (error positions are counted more than once)" % inner.iter.id, cfg.describe_path(stale) if stale else None)
+    if n == 0:
+        # the other legitimate layout: filled per chromosome, written once after the loop -- then it must NOT be re-created per chromosome
+        for inner in walk_function(run.node):
+            if isinstance(inner, ast.For) and isinstance(inner.iter, ast.Name) and not any(x is inner for x in ast.walk(loop)):
+                prints = [c for c in ast.walk(inner) if isinstance(c, ast.Call) and u(c.func) == "print" and any(k.arg == "file" for k in c.keywords)]
+                grows = [c for c in ast.walk(loop) if isinstance(c, ast.Call) and isinstance(c.func, ast.Attribute) and c.func.attr in ("append", "extend") and u(c.func.value) == inner.iter.id]
+                if prints and grows:
+                    n += 1
+                    inside = util.rebinds_inside_loops(run.node, inner.iter.id)
+                    ctx.ob(run.qual, "written-once-collected-over-all-chromosomes:%s" % inner.iter.id, not inside, run.loc(inner), "`%s` is filled over all chromosomes and written once" % inner.iter.id if not inside else "`%s` is written after the loop but re-created per chromosome: only the last chromosome is reported" % inner.iter.id)
+    ctx.require(n >= 1, "no switch-error report list (filled inside the chromosome loop and printed to a file) found in run_compare")
+
+
 RULES = [
     ("C11.R1", "operand shape of per-position metrics (haplotype string vs list)", r1),
     ("C11.R2", "orientation test and branches of the longest-block agreement", r2),
     ("C11.R3", "run decomposition switches = s + 2f by construction", r3),
     ("C11.R4", "only present, complete phases enter blocks", r4),
+    ("C11.R5", "per-chromosome switch-error records are collected afresh for each chromosome", r5),
 ]
-FLOORS = {"C11.R1": 12, "C11.R2": 2, "C11.R3": 6, "C11.R4": 3}
+FLOORS = {"C11.R1": 12, "C11.R2": 2, "C11.R3": 6, "C11.R4": 3, "C11.R5": 1}
